@@ -5,8 +5,8 @@ from . import c08
 
 MANIFEST = dict(
    technique="Lean 4 proof over the store model (conversion = OnAttach annotations on a private scratch copy of the Bag, then applyBag over an arbitrary visiting order; the converter's reads of definition-held member lists through accessors = allocation-only accesses to value-graph cells) + translator (go/ast provenance analysis of jsonschema/to.go: accessor calls, write sites with the origin of the written memory, map ranges with their sinks; accessors classified alias/copy behaviourally) with theorems over the whole regenerated tables + history correspondence: real derivations, ToJSONSchema calls with every option setting and Parse calls, each document compared with the one an isolated twin family gives",
-   text="For the code after pending/C12-convert-scratch-bag.diff and pending/C08-clone-bag.diff: c12_pure (conversion leaves the store untouched), c12_deterministic / c12_twice (the annotated bag is a function of the schema's observation), c12_order_invariant / c12_doc_deterministic (the keywords are the same for every permutation of the annotated bag, i.e. for every Go map iteration order), c12_hist (along every interleaving of chaining calls, conversions and parses every live schema keeps its observation and converts to the same result). Registry: the Describe/Meta checks' OnAttach (run by the converter against the live schema) is modelled in full (convertReg): c12_reg_frame (no other schema's entry is written), c12_annotate_idem / c12_reg_twice / c12_reg_after_others (after the first conversion the registry is a fixed point, so every later conversion reads the same entry), c12_reg_partial (with the entry absorbed the conversion leaves the registry alone); the full statement c12_reg_full is refuted by conv_registers_meta_check (open known finding conversion-registers-meta-check). Definition-held data (literal member lists behind the Def pointer a family shares, handed out by ZodLiteral.Values() by reference): convLiteral_ext / c12_def_pure (accessor, boxing and flattening only allocate: every allocated value graph is observed as before), members_eq_spec / c12_def_after_others / c12_def_twice / c12_def_acc_irrelevant (the document's members are a function of the definition, the same after any conversions of relatives, whether the accessor aliases or copies); excluded shape with witnesses inplace_dedup_changes_definition / inplace_dedup_changes_next_document. Over the tables regenerated from jsonschema/to.go: c12_writes_private (every write site writes memory the conversion made itself), c12_aliasing_accessors_read_only, c12_accessors_classified, c12_scratch_bag_private, c12_ranges_partial (every loop over a map feeds an order-insensitive sink except ToJSONSchema(registry), which is outside the property's quantifier: registry_range_order_sensitive, c12_ranges_full_false), c12_shape_range_sorted / c12_enum_sort_total / c12_applyBag_range_sorted / applyBag_field_collisions / sortedKeys_order_invariant (the loops repaired by 3e22e56 and d72e9e7; legacy_shape_range_sensitive / legacy_enum_sort_partial / legacy_applyBag_range_sensitive for the trees before). Witnesses for the pinned code: today_convert_pollutes_parent (converting String().Min(5) makes String() emit minLength 5) and today_applyBag_order_dependent (File().Size(3).Min(1) converts to minLength 3 or 1 depending on map order).",
-   note="The document model covers the part of conversion that goes through the Bag (constraint keywords, patterns) plus registry metadata, Values and Shape identity; structural recursion into member schemas, $defs/ref hoisting and option handling are not modelled and are covered only by the correspondence runs (9 option settings); which schemas a conversion visits (whose Describe/Meta callbacks run) is measured on a scout replica whose checks' exported OnAttach slices are wrapped with recorders. The oracle document is obtained from a replayed isolated twin, which assumes constructors and chaining calls are deterministic. Trusted: Lean kernel, axioms propext/Classical.choice/Quot.sound, the Go harness and comparer.",
+   text="For the code after pending/C12-convert-scratch-bag.diff and pending/C08-clone-bag.diff: c12_pure (conversion leaves the store untouched), c12_deterministic / c12_twice (the annotated bag is a function of the schema's observation), c12_order_invariant / c12_doc_deterministic (the keywords are the same for every permutation of the annotated bag, i.e. for every Go map iteration order), c12_hist (along every interleaving of chaining calls, conversions and parses every live schema keeps its observation and converts to the same result). Registry: the Describe/Meta checks' OnAttach (run by the converter against the live schema) is modelled in full (convertReg): c12_reg_frame (no other schema's entry is written), c12_annotate_idem / c12_reg_twice / c12_reg_after_others (after the first conversion the registry is a fixed point, so every later conversion reads the same entry), c12_reg_partial (with the entry absorbed the conversion leaves the registry alone); the full statement c12_reg_full is refuted by conv_registers_meta_check (open known finding conversion-registers-meta-check). Definition-held data (literal member lists behind the Def pointer a family shares, handed out by ZodLiteral.Values() by reference): convLiteral_ext / c12_def_pure (accessor, boxing and flattening only allocate: every allocated value graph is observed as before), members_eq_spec / c12_def_after_others / c12_def_twice / c12_def_acc_irrelevant (the document's members are a function of the definition, the same after any conversions of relatives, whether the accessor aliases or copies); excluded shape with witnesses inplace_dedup_changes_definition / inplace_dedup_changes_next_document. Over the tables regenerated from jsonschema/to.go: c12_writes_private (every write site writes memory the conversion made itself), c12_aliasing_accessors_read_only, c12_accessors_classified, c12_scratch_bag_private, c12_ranges_partial (every loop over a map feeds an order-insensitive sink except ToJSONSchema(registry), which is outside the property's quantifier: registry_range_order_sensitive, c12_ranges_full_false), c12_shape_range_sorted / c12_enum_sort_total / c12_applyBag_range_sorted / applyBag_field_collisions / sortedKeys_order_invariant (the loops repaired by 3e22e56 and d72e9e7; legacy_shape_range_sensitive / legacy_enum_sort_partial / legacy_applyBag_range_sensitive for the trees before). Options (Model/ConvOpts.lean: every field of jsonschema.Options a parameter of the conversion step; Override = user code handed the live node, may assign its value keywords and rewrite in place what it holds): c12_opts_ext / c12_opts_pure / c12_opts_entries_kept (under ANY option set the conversion writes nothing that existed before; every schema and every registry entry observed as before), c12_opts_deterministic / c12_opts_twice / c12_opts_after_others (the shown document is the same in every extension of the store), c12_opts_hist (histories with conversions under any options), c12_opts_full_with_clone; for the code before /repo 8997831 c12_opts_partial + witnesses override_edits_registry_examples / c12_opts_full_false. Over the regenerated option tables: c12_options_modelled, c12_options_read_only, c12_override_handed_live_node, c12_doc_stores_private (legacy_examples_store_shared), c12_no_mutator_calls. Witnesses for the pinned code: today_convert_pollutes_parent (converting String().Min(5) makes String() emit minLength 5) and today_applyBag_order_dependent (File().Size(3).Min(1) converts to minLength 3 or 1 depending on map order).",
+   note="The document model covers the part of conversion that goes through the Bag (constraint keywords, patterns) plus registry metadata, Values and Shape identity; structural recursion into member schemas and $defs/ref hoisting (how the value options shape the structural part) are not modelled and are covered only by the correspondence runs (16 option settings incl. URI/Override callbacks, ToJSONSchema(registry) steps, in-place rewriting of documents); ToJSONSchema(registry): purity is claimed and checked, the document is order-dependent (open known finding registry-document-order-dependent); which schemas a conversion visits (whose Describe/Meta callbacks run) is measured on a scout replica whose checks' exported OnAttach slices are wrapped with recorders. The oracle document is obtained from a replayed isolated twin, which assumes constructors and chaining calls are deterministic. Trusted: Lean kernel, axioms propext/Classical.choice/Quot.sound, the Go harness and comparer.",
    design="DESIGN.md §3.4, §5 C12")
 
 MODULES = ["Gozod.Proofs.C12", "Gozod.Proofs.C12Def", "Gozod.Proofs.C12Access", "Gozod.Proofs.C12Opts"]
@@ -31,7 +31,7 @@ THEOREMS = [
     "Gozod.C12Access.legacy_shape_range_sensitive", "Gozod.C12Access.legacy_enum_sort_partial", "Gozod.C12Access.legacy_applyBag_range_sensitive",
     # the options struct and what the document holds by reference (tables regenerated from jsonschema/to.go)
     "Gozod.C12Access.c12_options_modelled", "Gozod.C12Access.c12_options_read_only", "Gozod.C12Access.c12_override_handed_live_node",
-    "Gozod.C12Access.c12_doc_stores_partial",
+    "Gozod.C12Access.c12_doc_stores_private", "Gozod.C12Access.legacy_examples_store_shared", "Gozod.C12Access.c12_no_mutator_calls",
     # conversion options as parameters of the conversion step (Model/ConvOpts.lean)
     "Gozod.C12Opts.c12_opts_ext", "Gozod.C12Opts.c12_opts_pure", "Gozod.C12Opts.c12_opts_entries_kept",
     "Gozod.C12Opts.c12_opts_deterministic", "Gozod.C12Opts.c12_opts_after_others", "Gozod.C12Opts.c12_opts_twice",
@@ -191,7 +191,7 @@ def run(res):
         "conversions; H3 = random family of 3-6 schemas, 2n random conversions (6 option settings) / parses interleaved with further derivations, "
         "then every schema converted once more; H5 = private metadata registries; H6 = every catalogue check value (gozod.Describe/gozod.Meta with GlobalMeta examples of every JSON kind, "
         "user-defined checks, every check the public methods build: storex/checks.go) through every method taking a core.ZodCheck, result converted 3x, parent, wrapper 3x, sibling, second check, all twice more; "
-        "H7 = the catalogue attached with Internals().AddCheck on every base, converted 3x, child 2x, sibling, all again. Bases = every schema type (storex.Bases) + definition-data bases (storex.DefBases: literal member lists any-typed/typed with repeats, one slice member, nested slices, maps, mixed types, arrays; enums over string/int/float/bool/int8/any members with repeats; objects/unions/xors/tuples/arrays/intersections/maps/records/lazies holding the same member instance several times or several composite members). Snapshot per live schema: exported internals + what every slice/map accessor hands out + the definition's own slices/maps; parse fingerprint over the fixed probes + member-derived probes (every member, element, proper prefix). A document that differs from the twin's is re-tried on 24 fresh twins: disagreement among isolated twins = verdict n (nondeterministic). Oracle per conversion: the document of an isolated replayed twin; registry entries "
+        "H7 = the catalogue attached with Internals().AddCheck on every base, converted 3x, child 2x, sibling, all again; H8 = ToJSONSchema(REGISTRY over the whole family) as a history step between conversions of its schemas (9 registry x option variants); H9 = in-place rewriting of documents (an Override overwriting every list / pointee of every node it is handed; the caller doing the same to the returned document) on every base with a Meta check carrying examples and on 6 bases whose registry entry has examples, every conv step with the measurement of which registry entries' example lists the document holds. 14 option sets in the random pool (values, private registries, URI + Override callbacks, unknown strings, combinations). Bases = every schema type (storex.Bases) + definition-data bases (storex.DefBases: literal member lists any-typed/typed with repeats, one slice member, nested slices, maps, mixed types, arrays; enums over string/int/float/bool/int8/any members with repeats; objects/unions/xors/tuples/arrays/intersections/maps/records/lazies holding the same member instance several times or several composite members). Snapshot per live schema: exported internals + what every slice/map accessor hands out + the definition's own slices/maps; parse fingerprint over the fixed probes + member-derived probes (every member, element, proper prefix) + probes derived from the schema's own boundary values read off an isolated twin (document keywords at every depth and the annotated Bag: numbers at bound-1/bound/bound+1 as int/int64/float64 and +-0.5, strings/lists/maps of length bound-1/bound/bound+1, objects with every declared key / each required key absent / an undeclared key; distribution in input_distribution: probe:*, bound:*:<straddled|all-accepted|all-rejected>, probes-from-bounds:*). A document that differs from the twin's is re-tried on 24 fresh twins: disagreement among isolated twins = verdict n (nondeterministic). Oracle per conversion: the document of an isolated replayed twin; registry entries "
         "before/after each conversion against the model (convertReg). distinct = distinct op lines.")
     res.assumptions += [
         "constructors and chaining calls are deterministic (the isolated twin is the same derivation replayed)",
